@@ -26,7 +26,9 @@ rule = ("framings: the four COBS variants everywhere, zero terminated command te
         "sizes; compared with the spec only; the receiver is in turn mpt_stream_dispatch on a plain stream, the input object "
         "of mpt_stream_input ('st new <codec> input': streamDispatch of stream_input.c, 'st skip' = dispatch without handler) and "
         "mpt_stream_sync with a table of nine waiting commands ('st new <codec> wait': messages carry a reply id byte); "
-        "'st abort' = mpt_stream_push(srm, 1, 0)); stream 6 = message removal 'eq del k' (mpt_queue_push(qu, k, NULL)) on "
+        "'st abort' = mpt_stream_push(srm, 1, 0); the sender's socket is small and non-blocking: 'st flush' repeats mpt_stream_flush "
+        "while the driver's transport takes the bytes over, 'st flush1' is one call into a socket nobody reads (partial "
+        "writes, EAGAIN, write queue with offset), 'st eof' closes the receiver's connection after the delivery); stream 6 = message removal 'eq del k' (mpt_queue_push(qu, k, NULL)) on "
         "wrapped sender rings between pushes, terminations, partial flushes and 'eq align', COBS variants and raw.  A second "
         "driver part (harness/drvxx_cqueue.cpp) runs the queue scripts through the C++ wrappers encode_queue::push/trim and "
         "decode_queue::advance/current_message of mpt++/queue.cpp.  Non-trivial = a script in "
